@@ -37,12 +37,12 @@ var identicalCmd = &cobra.Command{
 		al := <-aligns.Achan
 		comp := <-compaligns.Achan
 
-		if aligns.Err != nil {
+		if al == nil {
 			err = aligns.Err
 			io.LogError(err)
 			return
 		}
-		if compaligns.Err != nil {
+		if comp == nil {
 			err = compaligns.Err
 			io.LogError(err)
 			return
